@@ -338,45 +338,33 @@ Proof.
   cbn. repeat split; reflexivity.
 Qed.
 
-(* Duration.__deepcopy__ = Duration(days=remaining_days, seconds=remaining_seconds, microseconds=.., minutes=.., hours=.., years=.., months=..) *)
-Lemma dur_rebuild_deep d : d_abs d = false ->
-  dur_rebuild RDeep d = duration_new (d_rdays d) (dur_remaining_seconds d) (d_micro d) 0 (dur_minutes d) (dur_hours d) 0 (d_years d) (d_months d).
-Proof. intro Ha. unfold dur_rebuild. rewrite Ha. reflexivity. Qed.
+(* Duration.__deepcopy__ = Duration(days=remaining_days, seconds=remaining_seconds, microseconds=.., minutes=.., hours=.., weeks=.., years=.., months=..)
+   (weeks passed since `fix: copy.deepcopy of a Duration keeps its weeks`): C09's rebuild from the public components *)
+Lemma dur_rebuild_deep d : d_abs d = false -> dur_rebuild RDeep d = duration_rebuild d.
+Proof. intro Ha. unfold dur_rebuild, duration_rebuild. rewrite Ha. reflexivity. Qed.
 Lemma absdur_rebuild_deep d : d_abs d = true ->
-  dur_rebuild RDeep d = absolute_duration_new (d_rdays d) (dur_remaining_seconds d) (d_micro d) 0 (dur_minutes d) (dur_hours d) 0 (d_years d) (d_months d).
+  dur_rebuild RDeep d = absolute_duration_new (d_rdays d) (dur_remaining_seconds d) (d_micro d) 0 (dur_minutes d) (dur_hours d) (d_weeks d) (d_years d) (d_months d).
 Proof. intro Ha. unfold dur_rebuild. rewrite Ha. reflexivity. Qed.
 
 Section DeepExact.
   Hypothesis Hsplit : float_split_exact_on_D9.
 
-  (* with weeks = 0 (and inside C09's exactness domain) deepcopy is exact *)
+  (* inside C09's exactness domain deepcopy is exact, whatever the weeks are: same public accessors, same native value, same stored fields.
+     With the code before the repair (no weeks keyword) `dur_rebuild_deep` fails: the copy was short of weeks * 7 days. *)
   Lemma dur_deep_exact days seconds us ms mi h w years months d :
     duration_new days seconds us ms mi h w years months = Ok d ->
-    D9 (d_N d) (YM years months * 86400) -> d_weeks d = 0 ->
-    exists d', dur_rebuild RDeep d = Ok d' /\ dur_public d' = dur_public d.
+    D9 (d_N d) (YM years months * 86400) ->
+    exists d', dur_rebuild RDeep d = Ok d' /\ dur_public d' = dur_public d /\ d_N d' = d_N d /\ d_total d' = d_total d /\ d_days d' = d_days d.
   Proof.
-    intros H HD Hw.
+    intros H HD.
     pose proof (years_months_signature _ _ _ _ _ _ _ _ _ _ H) as (_ & _ & Ha & _).
     destruct (rebuild_partial Hsplit _ _ _ _ _ _ _ _ _ _ H HD) as (d' & R & A1 & A2 & A3 & A4 & A5 & A6 & A7 & A8 & A9).
-    rewrite (dur_rebuild_deep d Ha). unfold duration_rebuild in R. rewrite Hw in R.
+    rewrite (dur_rebuild_deep d Ha).
     exists d'. split; [exact R|].
     assert (Ab : d_abs d' = false) by (apply years_months_signature in R; tauto).
+    split; [|auto].
     unfold dur_public, dur_hours, dur_minutes, dur_remaining_seconds, dur_invert, dur_total_seconds.
     rewrite A1, A3, A4, A5, A7, A8, A9, Ab, Ha. reflexivity.
-  Qed.
-
-  (* and with weeks <> 0 the copy is ALWAYS a different timedelta: exactly weeks * 7 days are missing *)
-  Lemma dur_deep_loses_weeks days seconds us ms mi h w years months d d' :
-    duration_new days seconds us ms mi h w years months = Ok d ->
-    D9 (d_N d) (YM years months * 86400) -> dur_rebuild RDeep d = Ok d' ->
-    d_N d' = d_N d - d_weeks d * 7 * 86400000000.
-  Proof.
-    intros H HD R.
-    pose proof (years_months_signature _ _ _ _ _ _ _ _ _ _ H) as (Hy & Hm & Ha & _).
-    pose proof (components_partial Hsplit _ _ _ _ _ _ _ _ _ _ H HD) as (Hsum & _).
-    rewrite (dur_rebuild_deep d Ha) in R.
-    pose proof (native_value _ _ _ _ _ _ _ _ _ _ R) as HN'. apply td_of_int_args_spec in HN'. destruct HN' as [E _].
-    rewrite E. unfold comp_sum in Hsum. unfold comp_weeks in *. rewrite Hy, Hm in *. unfold YM in Hsum. lia.
   Qed.
 End DeepExact.
 
@@ -432,9 +420,26 @@ Section Iv.
     - intros d ->. exact Fe.
   Qed.
 
-  (* copy.deepcopy of an Interval runs Duration.__deepcopy__, i.e. Interval(days=...): TypeError, always *)
-  Lemma iv_deep_raises iv : iv_rebuild zdb RDeep iv = Raise E_TypeError.
-  Proof. reflexivity. Qed.
+  (* copy.deepcopy: Interval.__deepcopy__ deep-copies the two endpoints of _getstate() (DateTime.__deepcopy__ keeps fold and tzinfo, a Date goes
+     through its reduce route) and passes the absolute flag: the Interval itself comes back - every endpoint kind, fold 1 and standard-library
+     tzinfos included.  With the code before the repair (Interval inherited Duration.__deepcopy__, i.e. Interval(days=...)) the `change` below
+     fails: the model then computes Raise E_TypeError for every Interval. *)
+  Lemma ep_rebuild_deep e : ep_valid e -> ep_rebuild RDeep e = Ok e.
+  Proof.
+    intro Hv. destruct e as [d|n]; cbn [ep_rebuild].
+    - rewrite (dt_rebuild_deep d Hv). reflexivity.
+    - rewrite (date_rebuild_id RDeep n Hv). reflexivity.
+  Qed.
+
+  Lemma iv_deep_id s e a iv : interval_new zdb s e a = Ok iv -> ep_valid s -> ep_valid e -> iv_rebuild zdb RDeep iv = Ok iv.
+  Proof.
+    intros H Vs Ve.
+    change (iv_rebuild zdb RDeep iv) with
+      (bind (iv_state iv) (fun args => bind (map_flagged (ep_arg RDeep) [true; true; false] args) (fun args' => interval_ctor zdb args' []))).
+    rewrite (iv_state_eq _ _ _ _ H). cbn [bind map_flagged ep_arg].
+    rewrite (ep_rebuild_deep s Vs), (ep_rebuild_deep e Ve). cbn [bind].
+    rewrite interval_ctor_args. exact H.
+  Qed.
 End Iv.
 
 (* ------------------------------------------------------------------ witnesses (closed computations) *)
@@ -493,26 +498,33 @@ Proof. destruct t as [[x y] z]. unfold triple_eqb. intro H. repeat (apply andb_t
 
 Ltac split_and H := repeat (let H2 := fresh "B" in apply andb_true_iff in H; destruct H as [H H2]).
 
+(* the former failing input: Duration(weeks=2, days=3) deep-copies to a Duration of 2 weeks and 3 days (17 days), every public accessor equal *)
 Definition dur_deep_check : bool :=
   match duration_new 3 0 0 0 0 0 2 0 0 with
   | Ok d => match dur_rebuild RDeep d with
-            | Ok d' => (d_weeks d =? 2) && (d_weeks d' =? 0) && triple_eqb (td_norm (d_N d)) 17 0 0 && triple_eqb (td_norm (d_N d')) 3 0 0
-                       && negb (zlist_eqb (dur_public d') (dur_public d))
+            | Ok d' => (d_weeks d =? 2) && (d_weeks d' =? 2) && triple_eqb (td_norm (d_N d)) 17 0 0 && triple_eqb (td_norm (d_N d')) 17 0 0
+                       && zlist_eqb (dur_public d') (dur_public d)
             | Raise _ => false
             end
   | Raise _ => false
   end.
 Lemma dur_deep_check_true : dur_deep_check = true. Proof. vm_compute. reflexivity. Qed.
 
+Lemma zlist_eqb_eq a : forall b, zlist_eqb a b = true -> a = b.
+Proof.
+  induction a as [|x r IH]; intros [|y t] H; cbn in H; try discriminate; [reflexivity|].
+  apply andb_true_iff in H. destruct H as [H1 H2]. apply Z.eqb_eq in H1. subst. f_equal. apply IH. exact H2.
+Qed.
+
 Lemma dur_deep_witness :
-  exists d d', duration_new 3 0 0 0 0 0 2 0 0 = Ok d /\ d_weeks d = 2 /\ dur_rebuild RDeep d = Ok d' /\ d_weeks d' = 0
-    /\ td_norm (d_N d) = (17, 0, 0) /\ td_norm (d_N d') = (3, 0, 0) /\ dur_public d' <> dur_public d.
+  exists d d', duration_new 3 0 0 0 0 0 2 0 0 = Ok d /\ d_weeks d = 2 /\ dur_rebuild RDeep d = Ok d' /\ d_weeks d' = 2
+    /\ td_norm (d_N d) = (17, 0, 0) /\ td_norm (d_N d') = (17, 0, 0) /\ dur_public d' = dur_public d.
 Proof.
   pose proof dur_deep_check_true as H. unfold dur_deep_check in H.
   destruct (duration_new 3 0 0 0 0 0 2 0 0) as [d|] eqn:E1; [|discriminate].
   destruct (dur_rebuild RDeep d) as [d'|] eqn:E2; [|discriminate].
   split_and H. exists d, d'. repeat split; try assumption; try lia; try (apply triple_eqb_true; assumption).
-  apply zlist_neq. apply negb_true_iff. assumption.
+  apply zlist_eqb_eq. assumption.
 Qed.
 
 (* the D9 hypothesis of dur_deep_exact cannot be dropped: Duration(years=300, days=3, microseconds=7) has weeks = 0 but its
@@ -582,6 +594,43 @@ Proof.
   - apply zlist_neq. apply negb_true_iff. assumption.
 Qed.
 
+(* ... while the weeks of an AbsoluteDuration survive now: AbsoluteDuration(weeks=2, days=3, hours=5) (underlying value positive) deep-copies to
+   a value with the same public accessors; with a NEGATIVE underlying value only the sign is lost - AbsoluteDuration(weeks=-2, days=-3) has
+   invert = True, weeks = 2, native value -17 days, its deep copy invert = False, weeks = 2, native value +17 days *)
+Definition absdur_deep_weeks_check : bool :=
+  match absolute_duration_new 3 0 0 0 0 5 2 0 0 with
+  | Ok d => match dur_rebuild RDeep d with
+            | Ok d' => (d_weeks d =? 2) && (d_weeks d' =? 2) && zlist_eqb (dur_public d') (dur_public d)
+            | Raise _ => false
+            end
+  | Raise _ => false
+  end
+  && match absolute_duration_new (-3) 0 0 0 0 0 (-2) 0 0 with
+     | Ok d => match dur_rebuild RDeep d with
+               | Ok d' => dur_invert d && negb (dur_invert d') && (d_weeks d =? 2) && (d_weeks d' =? 2) && (d_rdays d' =? d_rdays d)
+                          && triple_eqb (td_norm (d_N d)) (-17) 0 0 && triple_eqb (td_norm (d_N d')) 17 0 0
+               | Raise _ => false
+               end
+     | Raise _ => false
+     end.
+Lemma absdur_deep_weeks_check_true : absdur_deep_weeks_check = true. Proof. vm_compute. reflexivity. Qed.
+
+Lemma absdur_deep_weeks_witness :
+  (exists d d', absolute_duration_new 3 0 0 0 0 5 2 0 0 = Ok d /\ d_weeks d = 2 /\ dur_rebuild RDeep d = Ok d' /\ dur_public d' = dur_public d) /\
+  (exists d d', absolute_duration_new (-3) 0 0 0 0 0 (-2) 0 0 = Ok d /\ dur_invert d = true /\ d_weeks d = 2 /\ dur_rebuild RDeep d = Ok d'
+     /\ dur_invert d' = false /\ d_weeks d' = 2 /\ td_norm (d_N d) = (-17, 0, 0) /\ td_norm (d_N d') = (17, 0, 0)).
+Proof.
+  pose proof absdur_deep_weeks_check_true as H. unfold absdur_deep_weeks_check in H.
+  apply andb_true_iff in H. destruct H as [H1 H2]. split.
+  - destruct (absolute_duration_new 3 0 0 0 0 5 2 0 0) as [d|] eqn:E1; [|discriminate].
+    destruct (dur_rebuild RDeep d) as [d'|] eqn:E2; [|discriminate].
+    split_and H1. exists d, d'. repeat split; try assumption; try lia. apply zlist_eqb_eq. assumption.
+  - destruct (absolute_duration_new (-3) 0 0 0 0 0 (-2) 0 0) as [d|] eqn:E3; [|discriminate].
+    destruct (dur_rebuild RDeep d) as [d'|] eqn:E4; [|discriminate].
+    split_and H2. exists d, d'. repeat split; try assumption; try lia; try (apply triple_eqb_true; assumption).
+    apply negb_true_iff. assumption.
+Qed.
+
 (* Interval [02:30 fold=1 (+01:00) -> 04:00] in Paris, 90 minutes long: the pickled copy starts at 02:30+02:00 and is 150 minutes long *)
 Definition iv_wit_start : ep := EpDt paris_0230_fold1.
 Definition iv_wit_end : ep := EpDt (mkdt (W_0230 + 5400 * 1000000) false (TzNamed 0)).
@@ -610,20 +659,42 @@ Proof.
   apply zlist_neq. apply negb_true_iff. assumption.
 Qed.
 
+(* the same Interval (fold = 1 start), and the one whose end carries zoneinfo.ZoneInfo("Europe/Paris"), deep-copy to themselves: 90 minutes *)
+Definition iv_wit_end_foreign : ep := EpDt (mkdt (W_0230 + 5400 * 1000000) false (TzForeign (StdZone 0))).
+Lemma iv_deep_witness :
+  exists iv iv2, interval_new zdb_paris iv_wit_start iv_wit_end false = Ok iv /\ td_norm (iv_N iv) = (0, 5400, 0)
+    /\ iv_rebuild zdb_paris RDeep iv = Ok iv
+    /\ interval_new zdb_paris iv_wit_start iv_wit_end_foreign true = Ok iv2 /\ td_norm (iv_N iv2) = (0, 5400, 0)
+    /\ iv_rebuild zdb_paris RDeep iv2 = Ok iv2.
+Proof.
+  assert (V1 : ep_valid iv_wit_start) by (split; [reflexivity | exact I]).
+  assert (V2 : ep_valid iv_wit_end) by (split; [reflexivity | exact I]).
+  assert (V3 : ep_valid iv_wit_end_foreign) by (split; [reflexivity | exact I]).
+  assert (C : match interval_new zdb_paris iv_wit_start iv_wit_end false, interval_new zdb_paris iv_wit_start iv_wit_end_foreign true with
+              | Ok a, Ok b => triple_eqb (td_norm (iv_N a)) 0 5400 0 && triple_eqb (td_norm (iv_N b)) 0 5400 0
+              | _, _ => false end = true) by (vm_compute; reflexivity).
+  destruct (interval_new zdb_paris iv_wit_start iv_wit_end false) as [iv|] eqn:E1; [|discriminate].
+  destruct (interval_new zdb_paris iv_wit_start iv_wit_end_foreign true) as [iv2|] eqn:E2; [|discriminate].
+  apply andb_true_iff in C. destruct C as [C1 C2].
+  exists iv, iv2. repeat split; try (apply triple_eqb_true; assumption).
+  - exact (iv_deep_id zdb_paris _ _ _ _ E1 V1 V2).
+  - exact (iv_deep_id zdb_paris _ _ _ _ E2 V1 V3).
+Qed.
+
 (* satisfiability of the hypotheses used above *)
 Example dt_valid_example : dt_valid (mkdt W_0230 false (TzFixed 3600 [43; 48; 49; 58; 48; 48])).
 Proof. split; reflexivity. Qed.
 Example dt_valid_foreign_example : dt_valid (mkdt W_0230 true (TzForeign (StdZone 0))) /\ dt_valid (mkdt W_0230 true (TzForeign (StdOffset (-3661)))).
 Proof. repeat split. Qed.
-Definition dur_weeks0_check : bool :=
-  match duration_new 3 0 7 0 0 5 0 1 2 with
-  | Ok d => (d_weeks d =? 0) && (Z.abs (d_N d) <? B32) && (Z.abs (d_N d - YM 1 2 * 86400 * 1000000) <? B32)
+Definition dur_D9_check : bool :=
+  match duration_new 3 0 7 0 0 5 2 1 2 with
+  | Ok d => (d_weeks d =? 2) && (Z.abs (d_N d) <? B32) && (Z.abs (d_N d - YM 1 2 * 86400 * 1000000) <? B32)
   | Raise _ => false
   end.
-Example dur_weeks0_example : exists d, duration_new 3 0 7 0 0 5 0 1 2 = Ok d /\ d_weeks d = 0 /\ D9 (d_N d) (YM 1 2 * 86400).
+Example dur_D9_example : exists d, duration_new 3 0 7 0 0 5 2 1 2 = Ok d /\ d_weeks d = 2 /\ D9 (d_N d) (YM 1 2 * 86400).
 Proof.
-  assert (H : dur_weeks0_check = true) by (vm_compute; reflexivity). unfold dur_weeks0_check in H.
-  destruct (duration_new 3 0 7 0 0 5 0 1 2) as [d|] eqn:E9; [|discriminate].
+  assert (H : dur_D9_check = true) by (vm_compute; reflexivity). unfold dur_D9_check in H.
+  destruct (duration_new 3 0 7 0 0 5 2 1 2) as [d|] eqn:E9; [|discriminate].
   split_and H. exists d. split; [reflexivity|]. split; [lia|]. right. split; lia.
 Qed.
 Definition iv_example_check : bool :=
